@@ -45,7 +45,7 @@ def run(ctx, R, tier):
     R.rule("C05-R4", "_sendExceptionResponse: serialisation of the exception is under a catch-all that substitutes a PyroError built from text", floor=2)
     R.rule("C05-R5", "every call site of Daemon._handshake is contained (lexically under a catch-all try)", floor=3)
     R.rule("C05-R6", "the peer-controlled annotation walk makes progress: chunk lengths are decoded unsigned and the cursor advances by a positive "
-                     "constant plus the declared length (shared with C06-R3/R5)", floor=2)
+                     "constant plus the declared length (shared with C06-R3/R5)", floor=3)
 
     # ---------------------------------------------------------------- R1
     for root in ROOTS:
@@ -108,6 +108,9 @@ def run(ctx, R, tier):
         body_first = [e.dst for n in ln for e in n.succ if e.kind == "true"]
         ok = apcfg.all_paths_pass(ln, lambda n: n in inn, edge_ok=lambda e: e.kind != "exc" and not (e.src in ln and e.kind == "false"), targets=ln)
         why = "an iteration of the annotation walk can return to the loop test without advancing the cursor"
+    okt = isinstance(wl[0].test, ast.Compare) and len(wl[0].test.ops) == 1 and isinstance(wl[0].test.ops[0], (ast.Lt, ast.LtE))
+    R.check(okt, "C05-R6", "add_payload|loop-bounded-by-order", "the walk runs while cursor < bound (it ends as soon as the cursor reaches OR passes the bound)", ap.loc(wl[0]),
+            "the loop condition `%s` is not an ordering test: a chunk whose declared length overshoots the annotations region makes the cursor jump past the bound and the loop never ends" % unparse(wl[0].test))
     R.check(ok, "C05-R6", "add_payload|cursor-always-advances", "every iteration advances the cursor by a positive constant plus a non-negative amount", ap.loc(wl[0]), why)
 
     # ---------------------------------------------------------------- R1b
